@@ -52,7 +52,7 @@ def negative_configs():
          ["AcceptIffWellFormed", "ErrorIsAFault", "RejectBeforeEffects", "EscapeTyped"], [], {"RejectBeforeEffects"}, jo, False),
         ("MPValidate cleaners leak TypeError (pinned)", "MPValidate", "PrepassAll = TRUE CleanersTotal = FALSE AllKinds = FALSE Pairs = FALSE",
          ["AcceptIffWellFormed", "ErrorIsAFault", "RejectBeforeEffects", "EscapeTyped"], [], {"EscapeTyped", "ErrorIsAFault"}, jo, False),
-        ("MPRegistry string-prefix library filter (pinned)", "MPRegistry", 'PrefixRule = "string" MaxHist = 2', ["HistoryIndependent"], [], {"HistoryIndependent"}, (), False),
+        ("MPRegistry string-prefix library filter (pinned)", "MPRegistry", 'PrefixRule = "string" MaxHist = 2 PairsAllowed = TRUE', ["HistoryIndependent"], [], {"HistoryIndependent"}, (), False),
         ("MPParserObj counter never reset (pinned)", "MPParserObj", 'ResetWhen = "never" CrLfIsOne = TRUE CmdLineFrom = "result" NParsers = 2 MaxHist = 2', ["LinesTrue", "VersionByText"], [], None, (), False),
         ("MPParserObj reset only after a successful parse", "MPParserObj", 'ResetWhen = "end" CrLfIsOne = TRUE CmdLineFrom = "result" NParsers = 1 MaxHist = 2', ["LinesTrue", "VersionByText"], [], None, (), False),
         ("MPParserObj CRLF counted twice (pinned)", "MPParserObj", 'ResetWhen = "start" CrLfIsOne = FALSE CmdLineFrom = "result" NParsers = 1 MaxHist = 1', ["LinesTrue"], [], {"LinesTrue"}, (), False),
